@@ -67,6 +67,14 @@ theorem C18_sum_float_timing (ls : List (List Seg)) (es : List Edge)
   have h2 : closedLens (sumF ls) = closedLens (sum ls) := sumEdgesF_closedLens _ _ _
   exact ⟨h1, h2, by rw [lenSum_eq_closedLens, lenSum_eq_closedLens, h2]⟩
 
+/-- What one rounding can do beyond the bound: every float32 addition `Sum`/`SumMagnitude` perform is within a
+relative error of `2^-24` of the exact sum (half a unit in the last of 24 significant bits), for all operands
+in the modelled range (no overflow/subnormals) — so a magnitude that leaves the pointwise sum does so by at
+most that fraction per addition. -/
+theorem C18_float_addition_error (a b : Int) :
+    (addF a b - (a + b)).natAbs * 16777216 ≤ (a + b).natAbs :=
+  rnd24_error (a + b)
+
 /-- `SumMagnitude` in float32 is the exact total while the absolute magnitudes total less than 2^24. -/
 theorem C18_sumMagnitude_float (segs : List Seg) (h : magAbs segs < 16777216) :
     sumMagnitudeF segs = sumMagnitude segs :=
